@@ -23,7 +23,7 @@ HIST = hprop.HistoryProperty(
     nontrivial=lambda f: {"cross_search_cell_move", "request_removed"} <= f,
     rule="", assumptions=[],
     quick=(6, 60, 40), thorough=(6, 1500, 70), probes=True,
-    instr_bias={"kinds": [1, 1, 1, 8, 8, 8, 2, 5, 0, 3, 6]},
+    instr_bias={"relocate": True, "kinds": [1, 1, 1, 8, 8, 8, 2, 5, 0, 3, 6]},
 )
 RULE = ("(a) component: operation sequences (<= 60) on simulation_state_ops: add / move / remove / pop vehicle, add / move / remove request, "
         "add / modify-in-place / attempt-to-move / remove station and base, with cells from a pool built to hit same cell, neighbouring cell "
